@@ -18,7 +18,7 @@ if ! git -C "$D" apply "$W/SEED/patch.diff"; then echo "$NAME: patch does not ap
 (cd "$D" && sh SEED/demo/run.sh) > "$OUT/demo_with_patch.log" 2>&1; RC_PATCHED=$?
 (cd "$D" && $TC build ./pkg/... ./cmd/bb_scheduler ./cmd/bb_worker ./cmd/bb_runner ./cmd/bb_noop_worker ./cmd/bb_virtual_tmp) > "$OUT/build.log" 2>&1; RC_BUILD=$?
 (cd "$D" && $TC test -vet=off -count=1 ./pkg/filesystem/access/... ./pkg/scheduler/invocation/... ./pkg/scheduler/platform/...) > "$OUT/baseline_tests.log" 2>&1; RC_TESTS=$?
-cd /verif
+cd ${VERIF_DIR:-/verif}
 VERIF_REPO="$D" VERIF_WORK_SUFFIX="-seed-$NAME" ./check "$ID" quick > "$OUT/check_quick.log" 2>&1; RC_CHECK=$?
 rm -rf "$D" ".work/$(echo $ID | tr A-Z a-z)-quick-seed-$NAME"
 echo "$NAME: demo clean rc=$RC_CLEAN (want 0), demo patched rc=$RC_PATCHED (want !=0), build rc=$RC_BUILD, baseline tests rc=$RC_TESTS, check $ID quick rc=$RC_CHECK (1 = detected)"
